@@ -175,10 +175,12 @@ class Hub:
         self.defer = defer  # async only: hold replies until the scheduler (explorer) releases them
         self.pending: t.List[t.Tuple[FakeWriter, t.List[t.Optional[bytes]]]] = []
         self.connections: t.List[t.Tuple[str, int]] = []
+        self.attempts: t.List[t.Tuple[str, int]] = []
         self.sockets: t.List[t.Any] = []
 
     def create_connection(self, address: t.Tuple[str, int], timeout: t.Any = None, *a: t.Any, **k: t.Any) -> FakeSocket:
         host, port = address
+        self.attempts.append((host, port))
         conn = self.peer.connect(host, port)
         self.connections.append((host, port))
         s = FakeSocket(conn, (host, port))
@@ -186,6 +188,7 @@ class Hub:
         return s
 
     async def open_connection(self, host: t.Any = None, port: t.Any = None, **k: t.Any):
+        self.attempts.append((host, port))
         conn = self.peer.connect(host, port)
         self.connections.append((host, port))
         reader = asyncio.StreamReader()
